@@ -81,7 +81,7 @@ def execute(job):
 def run(tier):
     run = Run("C04", tier, "exploration")
     d = scratch("c04")
-    jobs = [(dsc, s) for dsc in descriptors(tier) for s in ([0] if tier == "quick" else [0, 1])]
+    jobs = [(dsc, s) for dsc in descriptors(tier) for s in ([0, 1, 2] if tier == "quick" else list(range(8)))]  # stream = rigid motion, SBC seed, history
     recs = pmap(execute, jobs, chunksize=1)
     keep, skipped = [], {}
     for r in recs:
